@@ -16,7 +16,7 @@ PROPS["C17"] = dict(
     tolerances={
         "NearestNeighbor (integer metrics)": "exact: index and distance lists equal to the Lean model of Search; distance list equal to the brute-force specification; TreeInv decided in Lean",
         "NearestNeighbor (double, GeodesicExact)": "distance lists within 160 nm (4 × the documented 40 nm of GeodesicExact: the computed metric obeys the triangle inequality only to round-off), counts equal",
-        "Load accept/reject": "equal to the Lean model of Load/Node::Check for images it accepts being accepted… precisely: an image the model rejects must be rejected; a stricter implementation is accepted except on unmodified Save images",
+        "Load accept/reject": "an image the Lean model of Load/Node::Check rejects must be rejected; an unmodified Save image must be accepted and searched identically; rejecting a corrupted image the model accepts is harmless (skipped)",
         "projection wrappers vs kernel values": "4e-16 relative (x, y, rk), azimuths and reverse positions bit-equal to the kernel values",
         "projection closures / defining geometry": "4 × documented geodesic accuracy (15 nm series for |f| ≤ 1/150, table of Geodesic.hpp beyond; GeodesicExact 40 nm), scaled by a/a_WGS84 and by the conditioning of the map (see harness/C17_proj.hpp)",
         "Intersect: point on both lines": "derived from the class's convergence tolerance d·eps^(3/4) and the geodesic accuracy, scaled with |x|,|y| in half-circuits (see harness/C17_isect.hpp)",
